@@ -215,7 +215,7 @@ class Ctx:
             for s in h.stubs: self.stubs.add(f'{s[0]} -> {s[1]}')
             if h.unwind: self.bounds.append(f'{h.name}: unwind {h.unwind}')
             self.queries += 1
-            c = r.get('cbmc', {})
+            c = r.get('cbmc') or {}
             self.solver_time += c.get('runtime_decision_procedure_s', 0.0) or 0.0
             sample = {'harness': h.full, 'doc': h.doc, 'checks': r.get('props', {}).get('total_properties'),
                       'covers_satisfied': r.get('props', {}).get('satisfied'),
